@@ -14,12 +14,23 @@ Fail closed: the body of that block must consist of exactly these statements, in
 
 Output coq/gen/GenCrashSchema.v: `apply_schema_sequence` (all codes in source order) and
 `apply_schema_writes` (the codes 1, 2, 3 in source order: what model/CrashSchema.v executes).
+
+The schema scripts themselves are taken from the classes of the repository under translation exactly
+as Trellis.initialize assembles them (`[self.schema()] + [cls.schema() for the node classes]`, here for
+Workflow and its default node classes), split into statements (sqlite3.complete_statement, comments
+stripped) and classified: a statement that is run again on a file that already holds its effect must
+not fail, i.e. it is `CREATE [TEMP] [UNIQUE] TABLE|INDEX|TRIGGER|VIEW IF NOT EXISTS ...`.
+`schema_statements_idempotent` is false as soon as one statement is not of that form (it is listed in
+a comment of the generated file); `schema_persistent_objects` counts the non-TEMP ones (what a killed
+first start can leave a prefix of); `schema_temp_objects` the TEMP ones (gone with the connection).
 """
 from __future__ import annotations
 
 import ast
+import re
+import sys
 
-from .astutil import TranslatorError, body_without_docstring, find_function, parse_module
+from .astutil import REPO, TranslatorError, body_without_docstring, find_function, parse_module
 
 
 def _src(node) -> str:
@@ -80,14 +91,82 @@ def apply_schema_sequence() -> list:
     return codes
 
 
+_DROP = re.compile(r"^DROP\s+(TABLE|INDEX|TRIGGER|VIEW)\s+IF\s+EXISTS\s+(?P<name>\w+)$", re.I)
+_CREATE = re.compile(r"^CREATE\s+(?P<temp>TEMP\s+|TEMPORARY\s+)?(UNIQUE\s+)?(TABLE|INDEX|TRIGGER|VIEW)\s+"
+                     r"(?P<ine>IF\s+NOT\s+EXISTS\s+)?(?P<name>\w+)?", re.I)
+
+
+def schema_statements() -> list:
+    """The statements of the schema scripts in execution order: (text, persistent?, idempotent?)."""
+    import importlib
+    import sqlite3
+    for name in [m for m in list(sys.modules) if m == "stepup" or m.startswith("stepup.")]:
+        path = getattr(sys.modules[name], "__file__", None) or ""
+        if not path.startswith(str(REPO)):
+            del sys.modules[name]          # a module of another tree (VERIF_REPO changed)
+    try:
+        wf = importlib.import_module("stepup.core.workflow")
+        if not str(getattr(wf, "__file__", "")).startswith(str(REPO)):
+            raise TranslatorError(f"stepup.core.workflow was imported from {wf.__file__}, not from {REPO}")
+        cls = wf.Workflow
+        scripts = [cls.schema()]
+        scripts += [s for s in (nc.schema() for nc in cls.default_node_classes()) if s is not None]
+    except TranslatorError:
+        raise
+    except Exception as exc:  # noqa: BLE001
+        raise TranslatorError(f"cannot assemble the schema scripts: {type(exc).__name__}: {exc}") from exc
+    out = []
+    for script in scripts:
+        buf = ""
+        for line in script.splitlines(keepends=True):
+            buf += line
+            if sqlite3.complete_statement(buf):
+                text = " ".join(ln.split("--", 1)[0].strip() for ln in buf.splitlines()).strip().rstrip(";").strip()
+                text = " ".join(text.split())
+                if text:
+                    m = _CREATE.match(text)
+                    out.append((text, bool(m) and not m.group("temp"), bool(m) and bool(m.group("ine"))))
+                buf = ""
+        if buf.strip() and any(ln.split("--", 1)[0].strip() for ln in buf.splitlines()):
+            raise TranslatorError(f"schema script ends inside a statement: {buf.strip()[:80]}")
+    if not out:
+        raise TranslatorError("no schema statement found")
+    return out
+
+
 def generate() -> str:
+    stmts = schema_statements()
+    # `DROP x IF EXISTS name` directly followed by `CREATE x IF NOT EXISTS name` (the way a changed
+    # trigger body reaches existing databases) cannot fail either; the model executes it (SDrop)
+    bad, drops, npers, ntemp = [], [], 0, 0
+    for i, (text, pers, idem) in enumerate(stmts):
+        d = _DROP.match(text)
+        if d:
+            nxt = _CREATE.match(stmts[i + 1][0]) if i + 1 < len(stmts) else None
+            if nxt and nxt.group("ine") and not nxt.group("temp") and (nxt.group("name") or "").lower() == d.group("name").lower():
+                drops.append(npers)          # the number the next persistent object gets
+            else:
+                bad.append(text)
+            continue
+        if not idem:
+            bad.append(text)
+        if pers:
+            npers += 1
+        elif _CREATE.match(text):
+            ntemp += 1
     seq = apply_schema_sequence()
     writes = [c for c in seq if c in (1, 2, 3)]
 
     def lst(xs):
         return "[" + "; ".join(str(x) for x in xs) + "]"
 
-    return ("(* GENERATED by translator/gen_crash_schema.py from stepup/core/sqlite3.py -- do not edit *)\n"
-            "From Coq Require Import List NArith.\nImport ListNotations.\nOpen Scope N_scope.\n\n"
-            f"Definition apply_schema_sequence : list N := {lst(seq)}.\n"
-            f"Definition apply_schema_writes : list N := {lst(writes)}.\n")
+    return ("(* GENERATED by translator/gen_crash_schema.py from stepup/core/sqlite3.py and the schema scripts of "
+            "Workflow -- do not edit *)\n"
+            "From Coq Require Import List NArith.\nImport ListNotations.\n\n"
+            f"Definition apply_schema_sequence : list N := {lst([str(c) + '%N' for c in seq])}.\n"
+            f"Definition apply_schema_writes : list N := {lst([str(c) + '%N' for c in writes])}.\n"
+            + "".join(f"(* can fail when run again: {t[:100].replace('*)', '* )')} *)\n" for t in bad)
+            + f"Definition schema_statements_idempotent : bool := {'true' if not bad else 'false'}.\n"
+            f"Definition schema_persistent_objects : nat := {npers}.\n"
+            f"Definition schema_temp_objects : nat := {ntemp}.\n"
+            f"Definition schema_drops : list nat := {lst(drops)}.\n")
